@@ -58,6 +58,10 @@ def main():
             with contextlib.redirect_stderr(err):
                 opts = dict(it['opts'])
                 opts.setdefault('pack', '*')
+                # files (re-)written just before this call
+                for fn, content in (opts.pop('_files', None) or {}).items():
+                    with open(fn, 'w', encoding='utf-8') as f:
+                        f.write(content)
                 # replacement / definition files are read once per process and the same object is handed to
                 # every call, as yalafi.shell does with --replace / --define
                 if 'repl_file' in opts:
